@@ -89,7 +89,10 @@ class ConcatenatedObject(Concatenated, ObjectBase):
                     ).copy()
                     attributes["parent"] = self
                     self.workspace.create_from_concatenation(attributes)
-                elif not isinstance(child_data, ConcatenatedPropertyGroup):
+                elif (
+                    not isinstance(child_data, ConcatenatedPropertyGroup)
+                    and child_data not in self.children
+                ):
                     self.add_children([child_data])
 
     def get_entity(self, name: str | uuid.UUID) -> list[Entity | None]:
@@ -100,7 +103,16 @@ class ConcatenatedObject(Concatenated, ObjectBase):
         :param entity_type: Sub-select entities based on type.
         :return: A list of children Data objects
         """
-        if not any(child for child in self.children if isinstance(child, Data)):
+        # stored children not read yet (none at all, or a data child was created before them)
+        loaded = {child.uid for child in self.children if isinstance(child, Data)}
+        listed = [
+            uuid.UUID(value)
+            for key, value in self.concatenator.get_concatenated_attributes(
+                self.uid
+            ).items()
+            if "Property:" in key
+        ]
+        if any(uid not in loaded for uid in listed):
             self._fetch_concatenated_children()
 
         if isinstance(name, uuid.UUID):
